@@ -148,11 +148,6 @@ func randQuery(rng *rand.Rand, d IndexDef, n int) AQuery {
 	return q
 }
 
-func transient(st string) bool {
-	return strings.HasPrefix(st, "err:") && (strings.Contains(st, "already closed") || strings.Contains(st, "snapshots not closed") ||
-		strings.Contains(st, "max active snapshots") || strings.Contains(st, "readers not closed"))
-}
-
 func (r *tvRun) readOnce(rng *rand.Rand) {
 	w := r.w
 	var xs []int
@@ -204,8 +199,9 @@ func (r *tvRun) readOnce(rng *rand.Rand) {
 		got, _ = w.exec(x, waited, q, nil)
 		hi = int(w.st.LastCommittedTxID())
 	}
-	if transient(got.St) {
-		r.res.Count("tv:transient-error", 1)
+	if strings.HasPrefix(got.St, "err:") {
+		// an error is not a value: the property is about what successful lookups return (counted, reported in the evidence)
+		r.res.Count("tv:read-error:"+lastWords(got.St), 1)
 		return
 	}
 	for {
@@ -253,6 +249,8 @@ func runTVOne(layout string, seed int64, run int, dir string, out *os.File, res 
 		}
 	}
 	total := 24 + rng.Intn(17) // <= 40 transactions per run
+	compactions := run%2 == 0  // every other run compacts the indexes while the writers are active
+	var ncompact atomic.Int64
 	phases := 2
 	committed := 0
 	for ph := 0; ph < phases; ph++ {
@@ -300,13 +298,18 @@ func runTVOne(layout string, seed int64, run int, dir string, out *os.File, res 
 					return
 				default:
 				}
-				switch mr.Intn(4) {
+				op := mr.Intn(4)
+				if op == 1 && !compactions {
+					op = 0
+				}
+				switch op {
 				case 0:
 					w.st.FlushIndexes(float32(mr.Intn(101)), mr.Intn(2) == 0)
 					res.Count("tv:flush", 1)
 				case 1:
 					if err := w.st.CompactIndexes(); err == nil {
 						res.Count("tv:compact", 1)
+						ncompact.Add(1)
 					} else {
 						res.Count("tv:compact-not-done", 1)
 					}
@@ -327,7 +330,7 @@ func runTVOne(layout string, seed int64, run int, dir string, out *os.File, res 
 		wg.Wait()
 		committed = int(w.st.LastCommittedTxID())
 		if err := w.waitIndexed(committed); err != nil {
-			sig := "store.WaitForIndexingUpto:indexing-does-not-catch-up"
+			sig := "indexer.indexSince:indexing-does-not-catch-up"
 			if cfg.Bulk > 1 {
 				sig = "indexer.indexSince:MaxBulkSize>1:indexing-does-not-catch-up"
 			}
@@ -346,6 +349,10 @@ func runTVOne(layout string, seed int64, run int, dir string, out *os.File, res 
 		// everything every index holds, at the quiescent point
 		for x := 1; x <= len(idx); x++ {
 			got, ts := w.exec(x, committed, AQuery{Op: "dump", Via: "snap", Flt: []string{}, K: AKey{}, P: AKey{}, Neq: AKey{}, Seek: AKey{}, End: AKey{}}, nil)
+			if strings.HasPrefix(got.St, "err:") {
+				res.Count("tv:read-error:"+lastWords(got.St), 1)
+				continue
+			}
 			r.reads = append(r.reads, tvEvent{"ev": "Read", "x": x, "lo": committed, "hi": ts, "waited": committed,
 				"q": AQuery{Op: "dump", Via: "snap", Flt: []string{}, K: AKey{}, P: AKey{}, Neq: AKey{}, Seek: AKey{}, End: AKey{}}, "r": got})
 			res.Count("tv:read:dump:quiescent", 1)
@@ -358,7 +365,7 @@ func runTVOne(layout string, seed int64, run int, dir string, out *os.File, res 
 	w.st.Close()
 	// the trace: the committed log in id order (what the writers were acknowledged), then the reads
 	enc := json.NewEncoder(out)
-	enc.Encode(tvEvent{"ev": "Reset", "run": run, "layout": layout, "cfg": cfg.String(), "bulk": cfg.Bulk})
+	enc.Encode(tvEvent{"ev": "Reset", "run": run, "layout": layout, "cfg": cfg.String(), "bulk": cfg.Bulk, "compactions": int(ncompact.Load())})
 	for id := 1; id <= committed; id++ {
 		tx, ok := r.commits[id]
 		if !ok {
